@@ -189,6 +189,47 @@ func checkC09(c *Ctx, r *Report) {
 		})
 	}
 
+	r.Rule("R09c", "every reflect.Value.String() call is dominated by a Kind() == reflect.String test on the same value", 3)
+	valueStringRule(c, r, "R09c")
+	// R09d: comparators of the sorts that establish an order
+	r.Rule("R09d", "every sort.Slice comparator on the claimed paths has the form key(x[i]) < key(x[j]) with one key function for both sides", 2)
+	for fn := range claimed {
+		if !c.InRepo(fn) || fn.Blocks == nil {
+			continue
+		}
+		for _, ci := range CallsIn(fn, false) {
+			g := ci.Common().StaticCallee()
+			if g == nil || (g.String() != "sort.Slice" && g.String() != "sort.SliceStable") {
+				continue
+			}
+			mc, isMC := ci.Common().Args[1].(*ssa.MakeClosure)
+			var less *ssa.Function
+			if isMC {
+				less, _ = mc.Fn.(*ssa.Function)
+			} else if f, isF := ci.Common().Args[1].(*ssa.Function); isF {
+				less = f
+			}
+			if less == nil || len(less.Params) != 2 {
+				r.add("R09d", c.FnName(fn), "comparator", c.Pos(ci.Pos()), Undecided, true, "the comparator is not a function literal")
+				continue
+			}
+			b := newNF(c)
+			b.Role(less.Params[0], "i")
+			b.Role(less.Params[1], "j")
+			okForm := true
+			form := ""
+			for _, ret := range Returns(less) {
+				n := b.Of(ret.Results[0])
+				form = n.String()
+				if n.op != "bin" || n.name != "<" || strings.ReplaceAll(n.args[0].String(), "$i", "$j") != n.args[1].String() || !strings.Contains(n.args[0].String(), "$i") {
+					okForm = false
+				}
+			}
+			r.Analysed["sort comparators"]++
+			r.Check(okForm, "R09d", c.FnName(fn), "comparator", c.Pos(ci.Pos()), form, "the comparator is not key(x[i]) < key(x[j]) with the same key on both sides (not a strict order on the keys): "+form)
+		}
+	}
+
 	sort.Slice(sites, func(i, j int) bool {
 		if c.FnName(sites[i].fn) != c.FnName(sites[j].fn) {
 			return c.FnName(sites[i].fn) < c.FnName(sites[j].fn)
@@ -569,4 +610,59 @@ func callIndependent(c *Ctx, e *E1, ci ssa.CallInstruction, s mapSite, perKey fu
 		}
 	}
 	return true, ""
+}
+
+// sameReflectValue: a and b denote the same reflect.Value (same SSA value, or loads of the same local).
+func sameReflectValue(a, b ssa.Value) bool {
+	if a == b {
+		return true
+	}
+	if SameValue(a, b) {
+		return true
+	}
+	sa, sb := Sources(a), Sources(b)
+	if len(sa) == 1 && len(sb) == 1 && sa[0] == sb[0] {
+		return true
+	}
+	return false
+}
+
+// valueStringRule: reflect.Value.String on a value that is not known to be a string yields the
+// constant "<T Value>" placeholder — as a sort key it makes all keys equal (the order falls back to
+// the runtime's enumeration order), as a key name it merges all keys into one. Interface-keyed maps
+// (what the YAML front-end produces) are where it differs from string-keyed ones.
+func valueStringRule(c *Ctx, r *Report, rule string) {
+	kt, _ := reflectKind(c)
+	var stringKind int64 = 24
+	for _, fn := range c.SrcFuncs() {
+		if fn.Pkg != c.SSA[""] {
+			continue
+		}
+		for _, ci := range CallsIn(fn, false) {
+			g := ci.Common().StaticCallee()
+			if g == nil || g.String() != "(reflect.Value).String" {
+				continue
+			}
+			recv := ci.Common().Args[0]
+			ok := false
+			for _, cd := range DomConds(ci.(ssa.Instruction).Block()) {
+				tag, k, isTest := enumTest(cd.V, kt)
+				if !isTest || k != stringKind {
+					continue
+				}
+				eq := cd.V.(*ssa.BinOp).Op == token.EQL
+				if eq != cd.Truth {
+					continue // the fact is kind != String
+				}
+				if kc, isCall := tag.(*ssa.Call); isCall {
+					if kf := kc.Call.StaticCallee(); kf != nil && kf.String() == "(reflect.Value).Kind" && sameReflectValue(kc.Call.Args[0], recv) {
+						ok = true
+					}
+				}
+			}
+			r.Analysed["reflect.Value.String calls"]++
+			r.Check(ok, rule, c.FnName(fn), "Value.String on a string", c.Pos(ci.Pos()), "dominated by Kind() == String on the same value",
+				"reflect.Value.String() is called on a value whose kind is not known to be String: for any other kind (an interface-typed map key as produced by the YAML front-end, say) it returns the constant placeholder \"<T Value>\" instead of the text")
+		}
+	}
 }
